@@ -10,6 +10,7 @@ Definition ctmap_pptx : list (str * str) := [((s "png"), (s "image/png")); ((s "
 Definition sof_xlsx : list Z := [192; 193; 194; 195; 197; 198; 199; 201; 202; 203; 205; 206; 207]%Z.
 Definition ctmap_xlsx : list (str * str) := [((s "png"), (s "image/png")); ((s "jpg"), (s "image/jpeg")); ((s "jpeg"), (s "image/jpeg")); ((s "gif"), (s "image/gif")); ((s "bmp"), (s "image/bmp")); ((s "tiff"), (s "image/tiff")); ((s "tif"), (s "image/tiff")); ((s "emf"), (s "image/x-emf")); ((s "wmf"), (s "image/x-wmf"))].
 Definition resolver_sites : list (str * bool) := [((s "docx._extract_images_from_context"), true); ((s "pptx._normalize_relative_path"), true); ((s "pptx._process_slide_from_context"), true); ((s "xlsx._resolve_image_path"), true); ((s "xlsx._resolve_drawing_path"), true); ((s "epub.resolve_href"), true); ((s "odf._shared.odf_member_name"), true); ((s "odt._extract_images_from_context"), true); ((s "odp._extract_image"), true); ((s "ods._extract_images"), true); ((s "odg._extract_images"), true)].
+Definition pdf_ctmap : list (str * str) := [((s "/DCTDecode"), (s "image/jpeg")); ((s "/JPXDecode"), (s "image/jp2")); ((s "/FlateDecode"), (s "image/png")); ((s "/CCITTFaxDecode"), (s "image/tiff")); ((s "/JBIG2Decode"), (s "image/jbig2")); ((s "/LZWDecode"), (s "image/png"))].
 Definition zip_lookup_sites : list (str * bool) := [((s "ZipContext.__init__: _namelist = set(zip.namelist())"), true); ((s "ZipContext.namelist"), true); ((s "ZipContext.exists"), true); ((s "ZipContext.read_bytes"), true); ((s "ZipContext.open_stream"), true); ((s "ZipContext.read_text"), true); ((s "ZipContext.read_xml_root"), true); ((s "zip_utils.read_zip_text"), true); ((s "zip_utils.read_zip_xml_root"), true); ((s "OOXMLZipContext: is a ZipContext and overrides no accessor"), true); ((s "_DocxContext: is a ZipContext and overrides no accessor"), true); ((s "_PptxContext: is a ZipContext and overrides no accessor"), true); ((s "_EpubContext: is a ZipContext and overrides no accessor"), true); ((s "_OdtContext: is a ZipContext and overrides no accessor"), true); ((s "_OdpContext: is a ZipContext and overrides no accessor"), true); ((s "_OdsContext: is a ZipContext and overrides no accessor"), true); ((s "_DocxContext.get_image_data"), true); ((s "_PptxContext.get_image_data"), true)].
 Definition sig_png : list Z := [137; 80; 78; 71; 13; 10; 26; 10]%Z.
 Definition sig_bmp : list Z := [66; 77]%Z.
